@@ -139,6 +139,20 @@ func valsFromPattern(enc string, n int, pat uint64, base int64) [][]byte {
 	return vals
 }
 
+// values from a small recurring domain: a value may come back after a different one
+// (the run-length generators only count upwards)
+func valsRecurring(r *rand.Rand, enc string, n, domain int, base int64) [][]byte {
+	vals := make([][]byte, n)
+	cur := int64(r.Intn(domain))
+	for i := 0; i < n; i++ {
+		if i == 0 || r.Intn(3) != 0 {
+			cur = int64(r.Intn(domain))
+		}
+		vals[i] = encodeVal(enc, base+cur)
+	}
+	return vals
+}
+
 // variable-width values whose sizes are small and irregular (0..4 payload bytes): the
 // leaf array must choose between its fixed-size and its positional layout, and sums
 // of sizes coincide with multiples of single sizes often
